@@ -72,6 +72,9 @@ impl Scene for S {
         if self.zero_shots {
             r.started_actions.push(Action::DelayedSend { timer: 5, delay: 0 });
             r.started_actions.push(Action::DelayedExec { timer: 6, delay: 0 });
+            // ... and a second and a third interval (all ticks are one message type)
+            r.started_actions.push(Action::Interval { timer: 7, period: 3 });
+            r.started_actions.push(Action::IntervalWith { timer: 8, period: 4 });
         }
         r.msg_actions = vec![
             (M_UPWS, Action::UpWeakSender),
@@ -257,6 +260,16 @@ impl Scene for S {
                 let Some(st) = started else { continue };
                 let sends: Vec<u64> = an.enters.iter().filter(|e| e.cb == Cb::Tick { timer: 5, reg_inc: r }).map(|e| e.time).collect();
                 let execs: Vec<u64> = an.enters.iter().filter(|e| e.cb == Cb::Exec { timer: 6, reg_inc: r }).map(|e| e.time).collect();
+                // the other intervals tick as well, next to the first one (checked above)
+                for (timer, period) in [(7u8, 3u64), (8, 4)] {
+                    if r == 0 && !an.enters.iter().any(|e| e.cb == (Cb::Tick { timer, reg_inc: 0 }) && e.time == st + period) {
+                        out.push(Violation {
+                            clause: "timers-keep-firing",
+                            key: format!("C15/only-strong={sub}/one-of-several-intervals"),
+                            detail: format!("interval {timer} (period {period}), registered next to two others, was not handled at t={}", st + period),
+                        });
+                    }
+                }
                 if sends != vec![st] || execs != vec![st] {
                     out.push(Violation {
                         clause: "timers-keep-firing",
@@ -565,7 +578,7 @@ fn base_cases(tier: Tier) -> Vec<Case> {
                     // zero-delay one-shots next to the other timers (one strong kind at a time)
                     if mask.count_ones() == 1 && path == Path::Direct && with_restart <= 1 && !burst {
                         v.push(Case {
-                            desc: format!("strong-kinds [zero-delay one-shots] subset={} path={:?} mailbox={} restart={} burst={}", subset_name(&subset), path, mailbox.name(), with_restart, burst),
+                            desc: format!("strong-kinds [zero-delay one-shots, three intervals] subset={} path={:?} mailbox={} restart={} burst={}", subset_name(&subset), path, mailbox.name(), with_restart, burst),
                             exec: ExecCfg { horizon: 30, ..ExecCfg::default() },
                             // (two more timer tasks at t=0: deviation-bounded)
                             bound: Some(if tier == Tier::Thorough { 4 } else { 2 }),
